@@ -290,7 +290,7 @@ pub fn run(g: &mut Global) {
         &check,
     );
     let hi = g.tier.pick(400usize, 3000usize);
-    g.random("random", g.tier.pick(20000, 200000), &move || strategy(1, hi, 0), &check);
+    g.random("random", g.tier.pick(60000, 400000), &move || strategy(1, hi, 0), &check);
     if g.tier == Tier::Thorough {
         g.random("long", 600, &|| strategy(5000, 10000, 0), &check);
     }
